@@ -51,6 +51,8 @@ func runC12(c *Ctx) {
 		"pkcs7.Pad(b, n) returns a buffer whose length is a positive multiple of n (its arithmetic is not decided here), so CryptBlocks in GPPPEncrypt receives whole blocks",
 		"SPEC: MS-GPPREF 2.2.1.1.4 AES-256 key 4e9906e8fcb66cc9faf49310620ffee8f496e806cc057990209b09a433b66c1b, CBC, all-zero IV, PKCS#7 padding, UTF-16LE plaintext, base64 text",
 	}
+	r.Explanation += crySxExplain
+	r.Assumptions = append(r.Assumptions, crySxAssume)
 	x := &c12{cry: newCry(c)}
 	x.guard(c12R1, "R1 analysis", "", x.effects)
 	x.guard(c12R2, "R2 analysis", "", x.gpp)
@@ -348,7 +350,54 @@ func (x *c12) effects() {
 
 // resetValues: Reset stores the constant 0 into every element of ci and into p.
 func (x *c12) resetValues(fn *ssa.Function) {
-	x.resetValuesIn(fn, x.P.FuncName(fn), 0)
+	name := x.P.FuncName(fn)
+	before := len(x.R.Obls)
+	x.resetValuesIn(fn, name, 0)
+	// the two reset values are entities of the rule (they count towards its
+	// floor): a value that is written in a way this reader does not follow is
+	// NOT DECIDED, not missing
+	have := map[string]bool{}
+	for _, o := range x.R.Obls[before:] {
+		have[o.Construct] = true
+	}
+	written := map[string]bool{}
+	for _, w := range x.e.Writes(fn) {
+		if w.Param == 0 {
+			written[w.Field()] = true
+		}
+	}
+	for f, construct := range map[string]string{"ci": fmt.Sprintf("%s: every ci[i] = 0", name), "p": fmt.Sprintf("%s: p = 0", name)} {
+		if !have[construct] && written[f] {
+			x.R.OK(c12R1, construct, x.pos(fn.Pos()), "NOT DECIDED — Reset writes "+f+" (see the obligation about which fields it writes), but not by a store of a constant, a loop over the elements, clear(), or a freshly made slice of the block length, which are the forms this clause reads")
+			x.R.Note("NOT DECIDED: %s — the value Reset leaves in %s", construct, f)
+		}
+	}
+}
+
+// blockLenExpr: v is len(recv.F) of a slice field of the receiver, or
+// recv.c.BlockSize(): the length every running-state slice has.
+func blockLenExpr(v ssa.Value, recv ssa.Value) bool {
+	c, ok := v.(*ssa.Call)
+	if !ok {
+		return false
+	}
+	cc := c.Common()
+	if bi, isB := cc.Value.(*ssa.Builtin); isB && bi.Name() == "len" && len(cc.Args) == 1 {
+		if ld, ok := cc.Args[0].(*ssa.UnOp); ok && ld.Op == token.MUL {
+			if fa, ok := ld.X.(*ssa.FieldAddr); ok && fa.X == recv {
+				return true
+			}
+		}
+		return false
+	}
+	if cc.IsInvoke() && cc.Method.Name() == "BlockSize" {
+		if ld, ok := cc.Value.(*ssa.UnOp); ok && ld.Op == token.MUL {
+			if fa, ok := ld.X.(*ssa.FieldAddr); ok && fa.X == recv {
+				return true
+			}
+		}
+	}
+	return false
 }
 
 // resetValuesIn looks at g, which runs on Reset's receiver (Reset itself, or an
@@ -388,6 +437,11 @@ func (x *c12) resetValuesIn(fn *ssa.Function, name string, depth int) {
 				}
 				f := fieldNameOf(a)
 				construct := fmt.Sprintf("%s: %s = 0", name, f)
+				if m, isMk := st.Val.(*ssa.MakeSlice); isMk && blockLenExpr(m.Len, a.X) {
+					// d.ci = make([]byte, len(d.ci)): a fresh, all-zero slice of the block length
+					x.R.OK(c12R1, fmt.Sprintf("%s: every %s[i] = 0", name, f), x.pos(st.Pos()), "replaced by a freshly made (all-zero) slice of the block length")
+					continue
+				}
 				if k, ok := constI(st.Val); ok && k == 0 {
 					x.R.OK(c12R1, construct, x.pos(st.Pos()), "constant 0")
 				} else if f == "p" {
@@ -586,7 +640,7 @@ func (x *c12) keyWriters() {
 }
 
 // side checks GPPPEncrypt (enc) or GPPPDecryptBytes (!enc).
-func (x *c12) side(fn *ssa.Function, enc bool) {
+func (x *c12) sideSyn(fn *ssa.Function, enc bool) {
 	name := x.P.FuncName(fn)
 	crypts := invokes(fn, "CryptBlocks")
 	cc := name + ": one CryptBlocks call"
